@@ -120,6 +120,10 @@ where
         let span = tracing::Span::current();
         self.runtime
             .spawn_blocking(move || {
+                #[cfg(deadpool_verif)]
+                deadpool_runtime::verif::lock_point("sync.interact.lock", || {
+                    deadpool_runtime::verif::is_locked(&arc)
+                });
                 let mut guard = arc.lock().unwrap();
                 let conn: &mut T = guard.as_mut().ok_or(InteractError::Aborted)?;
                 #[cfg(feature = "tracing")]
@@ -156,6 +160,8 @@ where
 {
     fn drop(&mut self) {
         let arc = self.obj.clone();
+        #[cfg(deadpool_verif)]
+        let arc = VerifArc(arc);
         // Drop the `rusqlite::Connection` inside a `spawn_blocking`
         // as the `drop` function of it can block.
         self.runtime
@@ -164,6 +170,20 @@ where
                 Err(e) => drop(e.into_inner().take()),
             })
             .unwrap();
+    }
+}
+
+/// Wrapper inserting a simulator lock point in front of `Mutex::lock`.
+#[cfg(deadpool_verif)]
+struct VerifArc<T>(Arc<Mutex<T>>);
+
+#[cfg(deadpool_verif)]
+impl<T> VerifArc<T> {
+    fn lock(&self) -> std::sync::LockResult<MutexGuard<'_, T>> {
+        deadpool_runtime::verif::lock_point("sync.drop.lock", || {
+            deadpool_runtime::verif::is_locked(&self.0)
+        });
+        self.0.lock()
     }
 }
 
